@@ -80,6 +80,29 @@ mechanism added for it (never a special case for the patch):
   `if is_bytes:`) and `1 if is_bytes else 0` is accepted as a twin index.
 * `_glob_dir` (entry verdict, descent, recursion arguments), `_pathlib_norm` (strip rule) and the separator arm of `_sequence` became
   decision tables; they had been the last rules that found their subject by the name of a local.
+
+The fourth set (U: combined clean-ups, 21 of 40 silent at first attempt) and the fifth (V: same brief as U, written after the U fixes,
+30 of 40 silent at first attempt) added, again as general mechanisms:
+
+* evaluator: the walrus operator; `for .. else` search loops (`for p in xs: if P: break` / `else: return False` is `if not any(P)`); the state
+  after a `break` is the state at the break (only a loop that may go on is weakened); appends to an unknown list are remembered, so
+  `''.join(rest + [x])` and `''.join(rest) + x` are the same value; `del xs[a:b]` is an effect like a mutator call; pure methods of
+  constant strings are folded (`'**'.encode('latin-1')`); `TABLE.get(flags & MASK)` and `TABLE[flags & MASK]` case-split on the few
+  undecided bits; `a | (flags & BIT)` with two flag words case-splits on the small one.
+* inliner: closures defined in the function (with `nonlocal`), `@staticmethod` helpers, generator helpers that leave their final loop by
+  `return`; K12 `for x in E: yield x` = `yield from E` (an equivalence for every consumer that iterates; it differs only under
+  `generator.send/throw`, which no property here observes); K8 also for records returned by a call (`a, b, .. = rest.pop(0)`).
+* rules rebuilt on tables or events: capture of `**` in `_handle_star`; look-ahead / put-back pairing; the fragment of `_handle_dot` (found by
+  what is appended, however it is spelled); `clean_up_inverse` by the value it writes back; the sibling comparison of the two `parse_extend`
+  scanners (per-character summary of one loop iteration instead of source text); `expand`, `expand_braces`, `is_magic`, `escape`, `get_case`
+  (dict dispatch), `_iter_patterns` (de-duplication), the automatic NOUNIQUE switch, `_is_unique`, the existence gate of `_Match.match`, the
+  link verdict of `_fs_match`, `_sequence_range_check` (the comparison is judged on the three orderings of two end points, so `v2 < v1` and
+  `not v1 <= v2` are the same), bracket extents (what each `_sequence` consumes before its scan loop for every pair of first characters,
+  read off its prologue table, replaces a syntactic extraction of if/elif stages; `for c in i` is a scan loop like `while c != ']'`).
+* condition guards in the remaining CFG rules are read as sets of constants (`c in ('/', '\\')` false = both `c == '/'` and `c == '\\'`
+  false) and through locals (`is_abs`, `is_bytes`).
+* a decision function that tests a condition outside the vocabulary of its specification is judged on the known atoms (a result that
+  needs the extra condition disagrees with the specification and is a violation; before, it was "not evaluable").
 What is still syntactic is listed in 6.5.
 
 ### 6.1 Engine as built (`/verif/wcverif/`, stdlib only, ~14 k lines)
@@ -167,8 +190,17 @@ regression variants of the self-test / on the parent commit.
 | F21 | `globmatch('a/b/lnk/deep/f.txt', '**/b/**/f.txt', G, REALPATH)` True for a symlinked `lnk`, while `glob` does not return it: `_fs_match` kept the path prefix of the first `**` capture for later captures (sub-agent aside, reproduced) | C06-R3 | fixed 1c025f7 |
 | F22 | `fnmatch.translate('[a-[:alpha:][:digit:]]')` did not compile (`bad escape \A`) and `fnmatch('b', '[a-[:alpha:]!]')` was False: `WcParse._sequence` kept `end_range` set after a POSIX class had consumed the would-be range end, so the next class / character was treated as a range end again (sub-agent aside, reproduced) | C01-R7 / C10-R5 `range-end-cleared-by-posix` (+) | fixed a990a18 |
 | F23 | `fnmatch('b', '!(a)@(@(b))', E)`, `'!(a)?(!(b))'`, `'!(a)*(b/!(c))'` raised `re.error` (unbalanced regex, the defect named in the text of C10): `clean_up_inverse` zeroed the counter of open `!(…)` groups after scanning a *nested* list, so the placeholder of the outer list was never rewritten. The rule `clean_up_inverse/counter` had encoded `inv_ext = 0` as the expected behaviour; it now demands that the counter goes down by exactly the number of placeholders rewritten | C01-R6 (also under C10, C08) | fixed 37709ff |
+| F24 | `m = glob.compile('*.txt'); del m._hash` succeeded (then `hash(m)` raises): `util.Immutable` closed `__setattr__` only (sub-agent aside, reproduced) | C19-R4 `Immutable.__delattr__/raises` (+) | fixed fc2ee0f |
+| F25 | `glob.glob([], exclude='{1..100}', flags=BRACE, limit=10)` returns `[]` although 100 exclusions exceed the limit (`globmatch` with the same arguments raises): `Glob.__init__` returns before parsing anything when the inclusion list is empty (sub-agent aside, reproduced) | C11-R6 (+) | **open**: the string type is taken from the first inclusion pattern; the repair restructures the initialisation |
+| F26 | `list(Path('/nonexistent').glob('{1..100}', flags=BRACE, limit=10)) == []`: `Path.glob` expands its patterns only for a directory (sub-agent aside, reproduced) | C11-R6 (+) | **open**: removing the guard changes what `Path(file).glob()` does; a behaviour decision |
+| F27 | `kill()` from `on_validate_directory` still let the first file of that directory through: `_walk` went on to the file loop after the folder loop had been left because of the abort (sub-agent aside, reproduced; judged "within spec" in session 1, but C15 says nothing further is yielded) | C15-R4 `nothing-after-abort` (+): every poll of `is_aborted()` is its own unknown, monotone | fixed 0e31ce8 |
+| F28 | with a regular file `f.txt`, `glob('f.txt/**', GLOBSTAR)` returned `['f.txt/']`; `glob('./', root_dir='/nonexistent')` returned `['./']`: `Glob.glob` used the literal first segment without checking it (sub-agent aside, reproduced; listed as "known, not detected" before) | C13-R2 `literal-start-is-real` (+) | fixed 4b6cf7c |
+| F29 | `glob.glob(b'*', dir_fd=fd)` raised `TypeError` (str and bytes mixed): `os.scandir(fd)` reports str names whatever the pattern type (sub-agent aside, reproduced) | C05-R4 `names-have-the-pattern-type` (+) | fixed 2d4a735 |
 
-Defects known but **not** detected by any rule: `**(b)` losing its group, the `**`+MATCHBASE dot leak, `glob('f/**')` returning `f/` for a regular file `f`, `expanduser` raising on an embedded NUL, the `**/` vs files
+Defects known but **not** detected by any rule (not listed in `known_findings.json`, which holds only what a check reports): `**(b)`
+losing its group, the `**`+MATCHBASE dot leak, `[a-\f-b]` (after an *escaped* range end the next `-` is taken for a range delimiter:
+`fnmatch('c', r'[a-\f-b]')` is False), `glob.escape('//?/UNC/server', unix=False)` leaving the `?` of an incomplete device prefix
+unescaped while the parser treats it as a wildcard, `!(a)` followed by a nullable group matching too little, `expanduser` raising on an embedded NUL, the `**/` vs files
 discrepancy of glob/globmatch, `MATCHBASE` without `PATHNAME` through `_wcparse` directly raising `UnboundLocalError` (not reachable
 through the public flag masks; C10-R3 checks exactly that side condition).
 
@@ -239,16 +271,27 @@ def seeded_table() -> str:
     head = ('### 6.4 Seeded changes (`/verif/seeded/`): independent mutants and what catches them\n\n'
             'Sub-agents were given only the text of one property and a private scratch worktree of /repo (nothing from /verif) and asked for\n'
             'up to three changes that break the property, still compile and keep the suite at 1194 passed / 2 failed, each with a\n'
-            'demonstration program. Round 1 (`<P>-m<k>`): one agent per property, 60 mutants. Round 2/3 (`<P>-n<k>`): a fresh agent per\n'
-            'property that was also told the one-line summaries of round 1 and asked for different mechanisms, 60 more. Every mutant was\n'
-            're-confirmed by `tools/seeded.py confirm` in a fresh scratch worktree (demo exits 0 before, 1 after, suite unchanged) and run\n'
-            'through all 20 checks by `tools/seeded.py detect` (scratch copy + `--repo`; nothing is ever applied to /repo). The patches\n'
-            'are kept with their demonstration and `meta.json` (property, summary, what it needs, what was run, which obligations fired).\n\n'
+            'demonstration program. Round 1 (`<P>-m<k>`): one agent per property, 60 mutants. Rounds 2/3 (`<P>-n<k>`): a fresh agent per\n'
+            'property that was also told the one-line summaries of round 1 and asked for different mechanisms, 60 more. Rounds 4/5\n'
+            '(`<P>-p<k>`, `<P>-q<k>`): fresh agents again, told the anchors and all earlier summaries, asked for subtle changes deep in the\n'
+            'machinery, 60 more (and asked to report defects of the unmodified library they met: F22-F29 come from those asides). Every\n'
+            'mutant was re-confirmed by `tools/seeded.py confirm` in a fresh scratch worktree (demo exits 0 before, 1 after, suite\n'
+            'unchanged) and run through all 20 checks by `tools/seeded.py detect` (scratch copy + `--repo`; nothing is ever applied to\n'
+            '/repo). Patches that stopped applying after a repair of /repo were rebased (by hand or by a sub-agent given only the patch and a\n'
+            'worktree) and re-confirmed. The patches are kept with their demonstration and `meta.json` (property, summary, what it needs,\n'
+            'what was run, which obligations fired).\n\n'
             f'Current state: **{stats["target"]} of {stats["total"]} are reported by the target property\'s own check**; '
             f'{stats["total"] - stats["target"] - stats["declined"]} only by another property; {stats["declined"]} by none.\n'
-            'History: round 1 first pass 30/60 by the target property (after strengthening 59/60); round 2 first pass 18/36 by the target\n'
-            'property and 8 by none -- those led to the loop-body tables (scan loops, root tokens, split points, star epilogue), the\n'
-            'descriptor-presence rule and F19; round 3 first pass 12/24 by the target property, 5 by none.\n\n'
+            'History (first pass = before anything was changed for that round): round 1 30/60 by the target property (after strengthening\n'
+            '59/60); round 2 18/36 and 8 by none -- those led to the loop-body tables (scan loops, root tokens, split points, star\n'
+            'epilogue), the descriptor-presence rule and F19; round 3 12/24, 5 by none; round 4 14/36 by the target property, 15 only by\n'
+            'another property (registry mappings added where the rule is about the property), 7 by none; round 5 11/24, 4 elsewhere, 9 by\n'
+            'none. What the misses led to: every attribute store of a parser token is an event (C16-n2); module state written through a\n'
+            'local alias (C19-q1); unknown conditions in decision functions are violations (C16-p2); census of the scan loops that fold runs\n'
+            '(C17-p3), of the sites that touch the capture marker (C08-q1), of `DIR_FLAGS` (C12-q2) and of the handler class in the walker\n'
+            '(C15-q2); range end cleared by every range check (C01-q3); equality of matchers by value (C19-q2); the expansion is\n'
+            'unavoidable (C11-q2, and F25/F26 on the tree itself); escapes consume what they escape (C09-q2); the remainder is tested before\n'
+            'it is popped (C10-p3); `imatch` without its own iteration is a violation, not an obstacle (C15-q3).\n\n'
             '| id | change | caught by target check | first violated obligation |\n|----|--------|------------------------|---------------------------|\n')
     return head + '\n'.join(rows) + '\n\n'
 
@@ -274,12 +317,16 @@ def neutral_table() -> str:
             'change nothing observable (different techniques: helper extraction, inlining, renames, flipped conditions, guard clauses,\n'
             'loops <-> any()/comprehensions, `in` vs `or`, flag idioms, regex respelling with the same language, dict dispatch ...), each\n'
             'verified by the unchanged test-suite result and by a differential harness of their own. `tools/neutral.py run` applies each to a\n'
-            'scratch copy and runs all 20 checks. Set R1-R8 (40 patches) was written before the value-based rewrite: first run 8/40 silent.\n'
-            'Set N1-N8 (40 patches) was written after it by fresh agents: first run 31/40 silent; the 9 alarms were: a helper extracted in\n'
-            'pathlib / Glob.glob / the budget arithmetic (led to helper following by vocabulary and generator delegation), `if/else` <-> conditional\n'
-            'expression in `_format_path` and the implicit `**` part (rules converted to tables / site slices), a merged condition in\n'
-            '`_GlobSplit._references` (oracle completion now respects mutually exclusive atoms), table-driven extglob dispatch (dict case split),\n'
-            'hoisted locals in `norm` (decode sites by value). Two patches (R6-r4, N5-r2) were rebased onto the repaired `_fs_match` after F21.\n\n'
+            'scratch copy and runs all 20 checks. First-attempt results, each set written by fresh agents after the fixes for the previous one:\n\n'
+            '| set | brief | silent at first attempt |\n|-----|-------|------------------------|\n'
+            '| R1-R8 | any clean-up, before the value-based rewrite | 8 / 40 |\n'
+            '| N1-N8 | same brief, after the rewrite | 31 / 40 |\n'
+            '| T1-T8 | emphasis on extracted helpers, generator helpers, renamed parameters, tuple unpacking | 25 / 40 |\n'
+            '| U1-U8 | combined clean-ups (several techniques per diff), walrus, try/else, dict dispatch | 21 / 40 |\n'
+            '| V1-V8 | the same brief as U | 30 / 40 |\n\n'
+            'Every alarm was a false alarm of the checker and was removed by a general mechanism (6.0), never by special-casing the patch;\n'
+            'none is a known finding. The trend says what to expect from a sixth set: most refactorings are silent, and a rule that still\n'
+            'reads statement structure (6.5) will be hit now and then. Patches were rebased when a repair of /repo touched their context.\n\n'
             f'Current state: **{ok} of {n} refactorings leave all 20 checks at exit 0.**\n\n'
             '| id | what it does | result |\n|----|--------------|--------|\n')
     return head + '\n'.join(rows) + '\n'
